@@ -792,3 +792,144 @@ def _make_next(kind):
 
 _make_next("idx")
 _make_next("order")
+
+
+# ---------------------------------------------------------------------------------------------------------
+# data side: the category tree -- index of a category = number of leaves before it (so leaf indices are consecutive and a
+# parent's index is the index of its first leaf)
+
+
+class _Cat:
+    """child j of a level: identity j, LC(j) leaves below it"""
+
+    __pyvc_symbolic__ = True
+
+    def __init__(self, j, LC):
+        self.j, self.LC = j, LC
+
+    def sym_is(self, it, other):
+        return isinstance(other, _Cat) and (self.j == other.j)
+
+    def sym_truth(self, it):
+        return True
+
+    def sym_getattr(self, it, name):
+        if name == "leaf_count":
+            return self.LC(self.j)
+        raise Exception("ghost category asked for %s" % name)
+
+
+def _prefix(c, LC):
+    PRE = z3.Function("LEAVES_BEFORE", z3.IntSort(), z3.IntSort())
+    j = z3.Int("pj")
+    c.path.assume(PRE(0) == 0)
+    c.path.assume(z3.ForAll([j], z3.Implies(j >= 0, PRE(j + 1) == PRE(j) + LC(j))))
+    c.path.assumed.add("LEAVES_BEFORE(k): ghost definition (sum of the leaf counts of the first k children)")
+    return PRE
+
+
+def _replay_tree(model, rec):
+    from pptx.chart.data import CategoryChartData
+
+    d = CategoryChartData()
+    want = []
+    leaf = 0
+    for p, mids in (("P0", (3, 1)), ("P1", (2,)), ("P2", (1, 1, 4))):
+        cat = d.add_category(p)
+        want.append((cat, leaf))
+        for mi, nleaf in enumerate(mids):
+            m = cat.add_sub_category("%s.%d" % (p, mi))
+            want.append((m, leaf))
+            for k in range(nleaf):
+                lf = m.add_sub_category("%s.%d.%d" % (p, mi, k))
+                want.append((lf, leaf))
+                leaf += 1
+    bad = [(c_.label, c_.idx, w) for c_, w in want if c_.idx != w]
+    if bad or d.categories.leaf_count != leaf or d.categories.depth != 3:
+        return {"confirmed": True, "witness_class": "category-tree", "detail": "3-level tree: (label, idx, expected first-leaf index) mismatches %s; leaf_count %s (expected %d)" % (bad[:4], d.categories.leaf_count, leaf)}
+    lv = list(d.categories.levels)
+    if [i for i, _ in lv[0]] != list(range(leaf)) or [i for i, _ in lv[2]] != [0, 4, 6]:
+        return {"confirmed": True, "witness_class": "category-tree", "detail": "levels give leaf idxs %s, top idxs %s" % ([i for i, _ in lv[0]], [i for i, _ in lv[2]])}
+    return {"confirmed": False, "detail": "idx of every node of a ragged 3-level tree is the index of its first leaf"}
+
+
+def _make_index(owner):
+    @contract("C07", "C07.chart.data.%s.index" % owner, replay=_replay_tree, timeout_ms=30000)
+    def body(c):
+        """index(child t) = (own starting index) + number of leaves below the children before t; ValueError when the object is
+        not a child -- for any number of children with any leaf counts."""
+        import pptx.chart.data as cd
+
+        n = c.int("n_children")
+        c.requires(n >= 0)
+        LC = z3.Function("LEAF_COUNT", z3.IntSort(), z3.IntSort())
+        j = z3.Int("cj")
+        c.requires(z3.ForAll([j], z3.Implies(z3.And(0 <= j, j < n), LC(j) >= 1)))
+        PRE = _prefix(c, LC)
+        t = c.int("target")
+        kids = SSeq(n, lambda q: _Cat(q, LC), name="children")
+        target = _Cat(t, LC)
+        if owner == "Categories":
+            base = z3.IntVal(0)
+            obj = SObj(cd.Categories, "categories", _categories=kids)
+            fn = cd.Categories.index
+        else:
+            base = c.int("own_index")
+            parent = SObj(None, "parent", index=GhostFn(lambda it, a, k: base, "parent.index"))
+            obj = SObj(cd.Category, "category", _parent=parent, _sub_categories=kids)
+            fn = cd.Category.index
+        qn = "pptx.chart.data:%s.index" % owner
+        c.loop_specs[(qn, 0)] = invariant_loop("C07.chart.data.%s.index.loop0" % owner, ["index"],
+                                               lambda env, k: z3.And(env["index"] == base + PRE(k), z3.ForAll([j], z3.Implies(z3.And(0 <= j, j < k), j != t))))
+        out = c.run(fn, obj, target)
+        if out.raised:
+            c.ensures("post.only_ValueError", out.exc.exc_cls is ValueError)
+            c.ensures("post.raises_only_for_a_non_child", z3.Not(z3.And(0 <= t, t < n)))
+            return
+        c.ensures("post.is_a_child", z3.And(0 <= t, t < n))
+        c.ensures("post.index_is_leaves_before_it", out.value == base + PRE(t))
+
+    return body
+
+
+_make_index("Categories")
+_make_index("Category")
+
+
+def _make_leaf_count(owner):
+    @contract("C07", "C07.chart.data.%s.leaf_count" % owner, replay=_replay_tree, timeout_ms=30000)
+    def body(c):
+        """leaf_count = sum of the children's leaf counts (1 for a category without sub-categories)."""
+        import pptx.chart.data as cd
+
+        n = c.int("n_children")
+        c.requires(n >= 0)
+        LC = z3.Function("LEAF_COUNT", z3.IntSort(), z3.IntSort())
+        j = z3.Int("cj")
+        c.requires(z3.ForAll([j], z3.Implies(z3.And(0 <= j, j < n), LC(j) >= 1)))
+        kids = SSeq(n, lambda q: _Cat(q, LC), name="children")
+        if owner == "Categories":
+            obj = SObj(cd.Categories, "categories", _categories=kids)
+            out = c.run(cd.Categories.leaf_count.fget, obj)
+        else:
+            obj = SObj(cd.Category, "category", _sub_categories=kids)
+            out = c.run(cd.Category.leaf_count.fget, obj)
+        if out.raised:
+            c.fails("never_raises", "raised %s" % out.exc)
+            return
+        r = out.value
+        if owner == "Category" and (isinstance(r, int) and r == 1):
+            c.ensures("post.one_for_a_leaf", n == 0)
+            return
+        sums = c.path.ghost.get("sums", [])
+        c.ensures("post.is_the_sum_over_the_children", len(sums) >= 1 and sums[-1].get("n") is not None and z3.And(sums[-1]["n"] == n, r == sums[-1]["total"]))
+        if sums:
+            k = c.int("probe")
+            c.requires(z3.And(0 <= k, k < n))
+            c.ensures("post.summand_is_the_childs_leaf_count", sums[-1]["elt"](k) == LC(k))
+
+    return body
+
+
+_make_leaf_count("Categories")
+_make_leaf_count("Category")
